@@ -62,7 +62,7 @@ def one_variable(rng, P, kinds=None, temp=0.0):
         groups = [[mp[a] for a in g] for g in groups]
         used += [mp[a] for a in atoms]
         coeff = 1.0 if not combo else rng.choice([1.0, -1.0])
-        one = k in ("distance", "distanceZ", "distanceXY") and rng.rand() < 0.3 and not combo
+        one = k in ("distance", "distanceZ", "distanceXY", "angle", "dihedral") and rng.rand() < 0.4 and not combo
         extra = ("  componentCoeff %s\n" % num(coeff)) + ("  oneSiteTotalForce on\n" if one else "")
         text += " " + (t + extra).replace("\n", "\n ") + "}\n"
         info.append({"kind": k, "coeff": coeff, "one": one, "groups": groups})
